@@ -1260,6 +1260,8 @@ class OpsMixin:
         is_gen = _has_yield(fn)
         saved_line = self.lineno
         self.func_stack.append((clo.name, clo.info or (self.func_stack[-1][1] if self.func_stack else None), clo.self_obj, clo.owner))
+        self.fn_nodes = getattr(self, "fn_nodes", [])
+        self.fn_nodes.append(fn)
         try:
             # defaults are evaluated in the callee's module (names resolve against its file)
             for n in list(pos) + [x.arg for x in a.kwonlyargs]:
@@ -1270,6 +1272,7 @@ class OpsMixin:
                         raise RaiseSig(SExc(exc_class("TypeError")), self.lineno)
         except BaseException:
             self.func_stack.pop()
+            self.fn_nodes.pop()
             raise
         env.vars.update(bound)
         self.call_depth += 1
@@ -1288,6 +1291,7 @@ class OpsMixin:
         finally:
             self.call_depth -= 1
             self.func_stack.pop()
+            self.fn_nodes.pop()
             if is_gen:
                 self.collectors.pop()
             self.lineno = saved_line
